@@ -21,7 +21,7 @@ RULE = ("(A) seeded call histories of 1-5 pipeflow calls on one net object over 
 ASSUMPTIONS = ["hook H2 reports the alpha used for the step, the per-variable error, the tolerances and the verdict of each iteration"]
 CONFIG = {"quick": {"shards": 8, "timeout_s": 600, "histories": 420, "driver_budgets": [1, 2, 3]},
           "thorough": {"shards": 16, "timeout_s": 3000, "histories": 9000, "driver_budgets": [1, 2, 3, 4]}}
-REQUIRED_COUNTERS = ["failures_before_first_iteration_after_success", "stage_endings_judged_against_requested_tolerances", "stage_endings_with_unequal_tolerances", "returns_checked", "failures_checked", "stages_converged", "stages_exhausted", "nr_iterations_observed",
+REQUIRED_COUNTERS = ["stage_unknown_sets_checked_bidirectional", "stage_unknown_sets_checked_hydraulics", "stage_unknown_sets_checked_heat", "failures_before_first_iteration_after_success", "stage_endings_judged_against_requested_tolerances", "stage_endings_with_unequal_tolerances", "returns_checked", "failures_checked", "stages_converged", "stages_exhausted", "nr_iterations_observed",
                      "failure_after_success_checked", "driver_scripts", "driver_converged", "driver_step_rejections",
                      "runs_automatic", "returned_flows_vs_tight_solution_checks", "runs_mode_bidirectional", "runs_mode_sequential", "runs_mode_heat"]
 EXHAUSTIVE = {"quick": False, "thorough": False}
@@ -230,6 +230,12 @@ def make_history(case):
     thermal = rng.random() < 0.5
     if thermal:
         spec = netgen.gen_heating(rng) if rng.random() < 0.6 else netgen.gen_thermal_mesh(rng)
+        if spec.get("heating", {}).get("source") != "passive" and rng.random() < 0.4:
+            netgen.add_cold_line(spec, rng)     # hydraulically active, thermally not: the two stages work on different tables
+        if rng.random() < 0.5:
+            # start temperatures far from the solution: errors rise and fall on the way, the damping strategy has to act
+            for j in spec["junctions"]:
+                j["tfluid_k"] = float(rng.uniform(290, 380))
     else:
         spec = netgen.gen_hydraulic(rng, features=[("valves",), ("pump", "compressor"), ("flow_control", "press_control"),
                                                    ("islands", "oos")][int(rng.integers(4))])
@@ -277,6 +283,7 @@ def tables_hold_numbers(net):
 
 
 TOL_OF = {"mdot": "tol_m", "p": "tol_p", "mdotslack": "tol_m", "T": "tol_T", "Tout": "tol_T", "TOUT": "tol_T"}
+UNKNOWNS = {"hydraulics": {"mdot", "p", "mdotslack"}, "heat": {"tout", "t"}, "bidirectional": {"mdot", "p", "mdotslack", "tout", "t"}}
 BUDGET_OF = {"hydraulics": "max_iter_hyd", "heat": "max_iter_therm", "bidirectional": "max_iter_bidirect"}
 TOL_DEFAULT = {"tol_m": 1e-5, "tol_p": 1e-5, "tol_T": 1e-3, "tol_res": 1e-3}
 
@@ -299,6 +306,14 @@ def check_trace(obs, trace, returned, opts, desc):
             if int(end["max_iter"]) != asked:
                 obs.violate("stage_ran_under_other_budget", "stage %s ran under a budget of %d iterations, the options ask for %d"
                             % (end["mode"], int(end["max_iter"]), asked), **desc)
+        # the statement speaks of the change of EVERY unknown: a stage whose trace does not report one of them cannot have checked it
+        want_unknowns = UNKNOWNS.get(end["mode"])
+        if want_unknowns and iters:
+            got_unknowns = {str(k).lower() for k in iters[-1]["errors"]}
+            obs.count("stage_unknown_sets_checked_" + end["mode"])
+            if not want_unknowns <= got_unknowns:
+                obs.violate("stage_does_not_check_every_unknown", "stage %s reports the change of %s, its unknowns are %s"
+                            % (end["mode"], sorted(got_unknowns), sorted(want_unknowns)), **desc)
         if int(end["niter"]) > int(end["max_iter"]):
             obs.violate("budget_exceeded", "stage %s ran %d iterations, budget %d" % (end["mode"], end["niter"], end["max_iter"]), **desc)
         if bool(end["converged"]):
@@ -448,7 +463,7 @@ def run_history(case, obs):
             valid_input = desc["hostile"] in ("none", "overload", "tiny_pipe", "no_supply")
             if not valid_input:
                 obs.count("invalid_parameter_outcome_" + name)   # NaN / zero parameters: outside the statement, shown only
-            elif name in ("IndexError", "ZeroDivisionError", "FloatingPointError", "TypeError", "KeyError", "AttributeError"):
+            elif name in ("IndexError", "ZeroDivisionError", "FloatingPointError", "TypeError", "KeyError", "AttributeError", "ValueError"):
                 obs.violate("crash_instead_of_not_converged", "pipeflow raised %s: %s" % (name, str(exc)[:200]), **desc)
             sol = None
 
